@@ -1,5 +1,5 @@
 CONSTANTS
-  NumBlocks = {5, 50, 500}
+  NumBlocks = {0, 5, 50, 500}
   CallBlocks = {500}
   LogBlocks = {50}
   Extra = TRUE
@@ -8,6 +8,8 @@ CONSTANTS
   Rule = 127
   Seed = TRUE
   Guard = TRUE
+  Tendermint = FALSE
+  ZeroOk = TRUE
   EarliestLow = TRUE
 INIT Init
 NEXT Next
